@@ -32,6 +32,7 @@ func checkC12(p *Prog, r *Report) {
 
 	perWriteBookkeepingRule(p, ls, r, "R7", tally, pend)
 	// a verdict given from an application event handler must not wait for Publish, nor Publish for it (mechanism: event bus)
+	capturedStateMapRule(p, r, "R14")
 	r.ImportRules(p, "C15", checkC15, map[string]string{"R3": "R13"})
 	approvalCleanupRule(p, r, "R8")
 	r.Rule("R10", "the locks of the approval bookkeeping are acquired in one order everywhere: no cycle of the held->acquired relation (over all mutexes, along synchronous calls) passes through a lock of the local feature — a verdict racing the clean-up after a disconnect cannot deadlock and leave writes without outcome")
